@@ -11,8 +11,9 @@ that preserve what the function does, each one local and syntactic):
       constants) is replaced by that literal;
   N3  a local one-expression function (`f = lambda a: E` / `def f(a): return E`, bound once, called
       with plain names) is inlined at its calls;
-  N4  `return _helper(a, b, …)` where `_helper` is a private module-level function whose parameters
-      are exactly `a, b, …` is replaced by the helper's body (a tail call with the same names);
+  N4  `return _helper(a, b, …)` where `_helper` is a private module-level function (defined once)
+      whose parameters are exactly `a, b, …` is replaced by the helper's body (a tail call with the
+      same names) — unless the helper reads a global whose name the caller binds;
   N5  `x = A if C else B`  is  `if C: x = A / else: x = B`;
   N6  `x = M[K] = E`  is  `M[K] = E; x = M[K]`;
   N7  `try: x = M[K] / except KeyError: M[K] = E; x = M[K]`  is  `if K not in M: M[K] = E` then `x = M[K]`;
@@ -24,7 +25,8 @@ that preserve what the function does, each one local and syntactic):
       if/else of the positive test with the branches swapped;
   N11 a local bound once, at the top level of the function, to a call-free access path
       (`x = a[b].c`) is replaced by that path, provided nothing later assigns to the path itself, to
-      a proper prefix of it, or to another subscript / attribute of a proper prefix;
+      a proper prefix of it, or to another subscript / attribute of a proper prefix, and nothing is
+      called before the last use of `x`;
   N12 locals (everything the function assigns, except its parameters) are renamed L0, L1, … in
       order of first binding.
 
@@ -184,26 +186,43 @@ def _inline_local_functions(fn):
     return fn
 
 
-def _inline_tail_helpers(body, module, depth=0):
-    """N4"""
+def _module_binds_once(module, name):
+    c = 0
+    for n in module.body:
+        if isinstance(n, (ast.FunctionDef, ast.ClassDef)) and n.name == name:
+            c += 1
+        elif isinstance(n, ast.Assign):
+            c += sum(1 for t in n.targets for x in ast.walk(t) if isinstance(x, ast.Name) and x.id == name)
+    return c == 1
+
+
+def _free_names(fn):
+    """names a function reads that are neither its parameters nor bound in it"""
+    bound = set(_params(fn)) | set(_assigned_names(fn))
+    return {n.id for n in ast.walk(fn) if isinstance(n, ast.Name) and isinstance(n.ctx, ast.Load)} - bound
+
+
+def _inline_tail_helpers(body, module, depth=0, caller_names=()):
+    """N4 (not when the helper reads a global whose name the caller binds locally)"""
     out = []
     for s in body:
         if isinstance(s, ast.Return) and isinstance(s.value, ast.Call) and isinstance(s.value.func, ast.Name) \
                 and s.value.func.id.startswith('_') and not s.value.keywords and depth < 4 \
                 and all(isinstance(a, ast.Name) for a in s.value.args):
-            h = next((n for n in module.body if isinstance(n, ast.FunctionDef) and n.name == s.value.func.id), None)
+            hs = [n for n in module.body if isinstance(n, ast.FunctionDef) and n.name == s.value.func.id]
+            h = hs[0] if len(hs) == 1 and _module_binds_once(module, s.value.func.id) else None
             if h is not None and _params(h) == [a.id for a in s.value.args] and not h.decorator_list \
-                    and not (h.args.defaults or h.args.kw_defaults):
+                    and not (h.args.defaults or h.args.kw_defaults) and not (_free_names(h) & set(caller_names)):
                 hb = [copy.deepcopy(x) for x in h.body if not _is_doc(x)]
-                out.extend(_inline_tail_helpers(hb, module, depth + 1))
+                out.extend(_inline_tail_helpers(hb, module, depth + 1, caller_names))
                 continue
         if not isinstance(s, (ast.FunctionDef, ast.ClassDef)):
             for fld in ('body', 'orelse', 'finalbody'):
                 if hasattr(s, fld) and isinstance(getattr(s, fld), list):
-                    setattr(s, fld, _inline_tail_helpers(getattr(s, fld), module, depth))
+                    setattr(s, fld, _inline_tail_helpers(getattr(s, fld), module, depth, caller_names))
             if isinstance(s, ast.Try):
                 for hd in s.handlers:
-                    hd.body = _inline_tail_helpers(hd.body, module, depth)
+                    hd.body = _inline_tail_helpers(hd.body, module, depth, caller_names)
         out.append(s)
     return out
 
@@ -407,6 +426,10 @@ def _inline_aliases(fn):
                     blocked = True
                 if isinstance(t, (ast.Subscript, ast.Attribute)) and ast.unparse(t.value) in pre:
                     blocked = True
+            uses = [j for j in range(i + 1, len(fn.body)) if _mentions([fn.body[j]], x)]
+            if uses and any(isinstance(n, (ast.Call, ast.Await, ast.Yield, ast.YieldFrom))
+                            for r in fn.body[i + 1:uses[-1] + 1] for n in ast.walk(r)):
+                blocked = True          # something called in between could rebind the path
             if blocked:
                 continue
             fn.body = fn.body[:i] + [_Subst({x: s.value}).visit(r) for r in fn.body[i + 1:]]
@@ -434,8 +457,9 @@ class _Rename(ast.NodeTransformer):
 def normalise(fn, module, consts):
     fn = copy.deepcopy(fn)
     fn.body = [s for s in fn.body if not _is_doc(s)]
-    fn.body = _inline_tail_helpers(fn.body, module)
-    fn = _Subst(consts).visit(fn)
+    fn.body = _inline_tail_helpers(fn.body, module, 0, tuple(_params(fn)) + tuple(_assigned_names(fn)))
+    shadowed = set(_params(fn)) | set(_assigned_names(fn))
+    fn = _Subst({k: v for k, v in consts.items() if k not in shadowed}).visit(fn)
     fn = _inline_local_functions(fn)
     fn.body = _rewrite_block(fn.body, n10=False)
     fn = _Get().visit(fn)
